@@ -246,6 +246,27 @@ func (m *MmsTables) disableCompAndMerge() {
 	}
 }
 
+// stopSignal returns the current stop channel of compaction and merge. disableCompAndMerge / EnableCompAndMerge
+// replace it under inCompLock, so it is read under that lock (nil while compaction and merge are disabled).
+func (m *MmsTables) stopSignal() chan struct{} {
+	m.inCompLock.RLock()
+	defer m.inCompLock.RUnlock()
+	return m.stopCompMerge
+}
+
+// addMergeTask registers one merge goroutine with the wait group DisableCompAndMerge waits for. The registration is
+// ordered with disableCompAndMerge by inCompLock: it either happens before the disabling (and the Wait that follows
+// sees it) or it sees merge disabled and does not happen.
+func (m *MmsTables) addMergeTask() bool {
+	m.inCompLock.RLock()
+	defer m.inCompLock.RUnlock()
+	if !m.MergeEnabled() {
+		return false
+	}
+	m.wg.Add(1)
+	return true
+}
+
 func (m *MmsTables) DisableCompAndMerge() {
 	m.disableCompAndMerge()
 	m.Wait()
@@ -426,7 +447,7 @@ func (m *MmsTables) isClosed() bool {
 
 func (m *MmsTables) isCompMergeStopped() bool {
 	select {
-	case <-m.stopCompMerge:
+	case <-m.stopSignal():
 		return true
 	default:
 		return false
